@@ -303,6 +303,12 @@ func (w WALBatch) replay(fs *fileStore) error {
 		if row.LSN >= fs._nextLSN {
 			fs._nextLSN = row.LSN
 		}
+		if row.WALOp == OpInsert && row.cellID > fs.lastKey {
+			// the header may be older than the pages (the process died
+			// inside a flush, before the header write): a key that was
+			// handed out must never be handed out again
+			fs.lastKey = row.cellID
+		}
 		node, err := fs.fetch(row.pageID)
 		if err != nil {
 			return err
